@@ -25,7 +25,7 @@ T = {
  "C03": ("deep-site rules over Emulator.Step and the same-package helpers it reaches (call chains, parameter-to-argument translation, interprocedural data dependence): read-after-apply reachability per function, must-pass-through of evaluation, lookup/miss-edge rules, report pairing (the reporter is identified by its effect on Step.RegLoads/MemLoads, values compared through copies only); concrete interprocedural CFG walk for the fall-through polarity; unchecked-type-assertion rule for .(expr.Const)",
          "evaluation discipline of the emulator: all effects evaluated before any is applied, nothing reads state while applying, fall-through exactly when no applied effect wrote the IP, lookup failure returns an error first, every read/write reported with the same key/address/value, memory layering Overlay(Bytes, Sparse), every .(expr.Const) in the emulator is applied to a constant-folded value or checked. Numeric agreement with a reference machine and absence of panics are NOT decided",
          "trusts go/ssa; C14-C16, C18 cover the state containers", "§4 C03"),
- "C04": ("who-may-call + miss-edge dominance + must-pass-through (memoising store) rules; set-algebra truth tables",
+ "C04": ("who-may-call + miss-edge dominance + must-pass-through (memoising store) rules; state reads in the provider-calling functions use the function's own request parameters (C04.req); set-algebra truth tables",
          "for every call site of the state provider: dominated by the miss of the same request, memory ranges taken from Missing() of the same request, answer stored before going on; Overlay.Missing = base ∩ overlay; history semantics of the containers is C14-C16",
          "trusts go/ssa", "§4 C04"),
  "C05": ("loop pairing (every iteration records the writer), scan-direction vs addDep argument order, finder coverage (direct calls or a static table of passes ranged over as a whole), bound finder identified by role, bound decision by concrete CFG walk; the control edge is added in every iteration (no condition of its own, no early exit)",
@@ -55,7 +55,7 @@ T = {
  "C13": ("traversal rules on Possibilities (origins of returned alternatives, no sub-slicing, SetWidth to the node width), call-graph reachability",
          "every child is expanded, both branches of a conditional are returned at the conditional's width, no conditional constructor is reachable; value equality with some alternative follows by induction from these",
          "trusts go/ssa; SetWidth value preservation is C12", "§4 C13"),
- "C14": ("ghost-interval refinement of cutExpr values (linear forms + branch facts, path alternatives through phis), guard rules on Missing, concrete CFG walk of wholeInterval on 16 interval lists, byte-slice ownership, no-8-bit-scaling rule for byte counts, per-path walk of cutExpr.expr over concrete (begin, end, stored width)",
+ "C14": ("ghost-interval refinement of cutExpr values (linear forms + branch facts, path alternatives through phis), guard rules on Missing, concrete CFG walk of wholeInterval on 16 interval lists, walk of Sparse.Store under every consistent order of (addr, end, Low, High) comparing the intervals put into the tree with the specification (C14.keep), byte-slice ownership, no-8-bit-scaling rule for byte counts, per-path walk of cutExpr.expr over concrete (begin, end, stored width)",
          "every piece put into / taken out of the interval tree covers exactly the address interval it stands for, shifts are (piece.low-addr)*8, cutBegin/cutEnd/expr keep/shift what they document, gaps are emitted under their comparisons, byte offsets are widened before being turned into bit counts; full history semantics (tree library, overlapping sequences) is not decided",
          "trusts go/ssa and the interval tree library (Overlaps sorted, Add/Put/Remove)", "§4 C14"),
  "C15": ("byte-slice ownership analysis with parameter and struct-result summaries, set-algebra truth tables, compaction idiom, memmove-direction rule for in-place shifts, guard rules, whole-list normalisation after a write (deep call sites of dedupBlocks)",
